@@ -7,7 +7,7 @@
     [run] / [final] / [consumed] run a whole history. *)
 From Coq Require Import List Bool Arith ZArith.
 Import ListNotations.
-Require Import Nib.C11.Model Nib.C11.Spec Nib.C11.Proofs Nib.C11.ProofsPreimage Nib.C11.Examples.
+Require Import Nib.C11.Model Nib.C11.Spec Nib.C11.Proofs Nib.C11.ProofsPreimage Nib.C11.ProofsRates Nib.C11.Examples.
 
 (** A vote is accepted IF AND ONLY IF its signer is the validator's own account or the account
     the validator currently delegates to, the validator is bonded, a prevote of that validator is
@@ -279,3 +279,40 @@ Proof.
   exists commit_ab_reveal_ab_blank, commit_ab_blank_reveal_ab_blank. repeat split; vm_compute; reflexivity.
 Qed.
 Print Assumptions C11_trim_preimage_refuted.
+
+(* ------------------------------------------------------------------ the revealed string must be a VALID vote *)
+
+(** [vote_msg d f v salt rates tuples wf ts wl] is the vote whose validity flag is computed from the
+    driver's own view [ts] of the revealed string (per tuple: pair id, rate > 0) under the
+    duplicate rule [d] (Model.v); the pinned tree's rule is [DupAll]
+    (Gen/C11Oblig.v C11_rates_duplicates_checked_for_all_entries).  A vote is accepted iff the
+    hash matches AND the string is a valid vote: well formed, one tuple per pair. *)
+Theorem C11_vote_accepted_iff_valid_rates :
+  forall H n s h f v salt rates tuples wf ts wl,
+  accepted (fst (step H n s h (vote_msg DupAll f v salt rates tuples wf ts wl))) = true <->
+  feeder_ok s f v = true /\ status s v = Bonded /\
+  (exists p, prevotes s v = Some p /\ period_ok (vp s) h (p_submit p) = true /\
+             p_hash p = H salt rates v) /\
+  (wf = true /\ NoDup (map fst ts)) /\ wl = true.
+Proof. exact vote_msg_accepted_iff. Qed.
+Print Assumptions C11_vote_accepted_iff_valid_rates.
+
+(** A reveal naming a pair twice (priced or abstain, adjacent or not) or malformed is refused even
+    when hash-exact; nothing changes: the prevote stays pending, no vote is stored. *)
+Theorem C11_invalid_rates_refused_prevote_pending :
+  forall H n s h f v salt rates tuples wf ts wl,
+  (wf = false \/ ~ NoDup (map fst ts)) ->
+  let r := step H n s h (vote_msg DupAll f v salt rates tuples wf ts wl) in
+  accepted (fst r) = false /\ snd r = s /\ prevotes (snd r) v = prevotes s v /\ votes (snd r) v = votes s v.
+Proof. exact invalid_rates_refused_prevote_pending. Qed.
+Print Assumptions C11_invalid_rates_refused_prevote_pending.
+
+(** The variant whose duplicate test skips abstain entries accepts such a reveal and consumes the
+    prevote. *)
+Theorem C11_dup_priced_only_refuted :
+  forall H, exists s ts, ~ NoDup (map fst ts) /\
+    let r := step H 0 s 2%Z (vote_msg DupPricedOnly 0 0 1 1 7 true ts true) in
+    accepted (fst r) = true /\ prevotes (snd r) 0 = None /\ votes (snd r) 0 = Some 7 /\
+    accepted (fst (step H 0 s 2%Z (vote_msg DupAll 0 0 1 1 7 true ts true))) = false.
+Proof. exact dup_priced_only_refuted. Qed.
+Print Assumptions C11_dup_priced_only_refuted.
